@@ -324,13 +324,36 @@ def checkCall (maxc : Nat) (o : OSt) (c : Call) (ob : OpObs) : Except String OSt
       | none => .error s!"bad_result:{r}"
     | _ => .error "bad_result"
 
-def checkAll (maxc : Nat) : OSt → List Call → List OpObs → Nat → Except String OSt
-  | o, [], [], _ => .ok o
-  | o, op :: ops, ob :: obs, i =>
-    match checkCall maxc o op ob with
-    | .ok o' => checkAll maxc o' ops obs (i + 1)
+/-- one of the caller's undo-frame calls against its observation: it is not an execute (no events, result `u`, focus
+untouched); begin / commit leave the facts alone, a rollback puts back the facts observed at the matching begin (`frames`:
+the facts as OBSERVED at each open `begin_undo_frame`) -/
+def checkFrame (o : OSt) (frames : List (List (Nat × Int))) (w : WCall) (ob : OpObs) (nf : Nat) :
+    Except String (OSt × List (List (Nat × Int))) := do
+  if !ob.events.isEmpty then .error "events_outside_execute"
+  expectRes ob ["u"]
+  if ob.active != o.active then .error "focus_mismatch"
+  let f := frameStep o.facts frames w
+  if showFacts nf ob.facts != showFacts nf f.1 then
+    .error (match w with | .frameRollback => "rollback_not_restored" | _ => "frame_call_changed_facts")
+  let o := match w with
+    | .frameBegin => addTag o true "undo_frame_begin"
+    | .frameCommit => addTag o (!frames.isEmpty) "undo_frame_commit"
+    | .frameRollback => addTag (addTag o (!frames.isEmpty) "undo_frame_rollback") (!frames.isEmpty && showFacts nf o.facts != showFacts nf f.1) "rollback_undid_writes"
+    | .call _ => o
+  pure ({ o with facts := ob.facts }, f.2)
+
+def checkAll (maxc nf : Nat) : OSt → List (List (Nat × Int)) → List WCall → List OpObs → Nat → Except String OSt
+  | o, _, [], [], _ => .ok o
+  | o, frames, .call op :: ops, ob :: obs, i =>
+    let isExec := match op with | .op (.exec _) | .execNow | .wfStep _ | .workflow _ => true | _ => false
+    match checkCall maxc (addTag o (isExec && !frames.isEmpty) "exec_in_undo_frame") op ob with
+    | .ok o' => checkAll maxc nf o' frames ops obs (i + 1)
     | .error c => .error s!"{c}@{i}"
-  | _, _, _, _ => .error "length"
+  | o, frames, w :: ops, ob :: obs, i =>
+    match checkFrame o frames w ob nf with
+    | .ok (o', frames') => checkAll maxc nf o' frames' ops obs (i + 1)
+    | .error c => .error s!"{c}@{i}"
+  | _, _, _, _, _ => .error "length"
 
 /-- `ok <tags>` / `fail <clause>@<op index>`; `nontrivialTag` decides what counts as non-trivial -/
 def oracleLine (nontrivial : List String → Bool) (line : String) : String :=
@@ -341,7 +364,7 @@ def oracleLine (nontrivial : List String → Bool) (line : String) : String :=
     | some cs =>
       match cs.start?, parseObs? obsS.trimAscii.toString with
       | some st, some obs =>
-        match checkAll cs.maxc { rules := st.rules, facts := cs.facts } cs.ops obs 0 with
+        match checkAll cs.maxc cs.nf { rules := st.rules, facts := cs.facts } [] cs.ops obs 0 with
         | .ok o =>
           let tags := o.tags.reverse
           Proto.joinSp ("ok" :: tags ++ (if nontrivial tags then ["nontrivial"] else []))
